@@ -643,3 +643,44 @@ def r13_10(ctx):
                 pass
     ctx.check(ok, "Ocp._transcribe withdraws the transcribed flag when phase 2 raises", detail="after a rejection raised in phase 2 a repeated solve() of the unchanged OCP runs on the half-built NLP (no error, truncated constraints, objective 0)",
               expected="try: self._transcribe_recurse(phase=2, ...) except: self._original._set_transcribed(False); raise", found="phase 2 unguarded", fi=f, node=p2[0])
+
+
+@rule("R13.11", min_instances=3, desc="the specification owns its data: guesses and solver options are stored as private copies; a declaration that is rejected leaves the specification unchanged (validate before mutating)")
+def r13_11(ctx):
+    from ..model import nested_functions
+    P = ctx.prog
+    COPIERS = ("DM", "deepcopy", "copy.deepcopy", "np.array", "numpy.array", "copy", "copy.copy", "np.copy", "dict", "list")
+    # (a) guesses
+    f = P.own_method("Stage", "set_initial")
+    fns = [f] + list(nested_functions(f).values())
+    stores = [(g, st) for g in fns for st in walk_no_nested(g.node) if isinstance(st, ast.Assign) and isinstance(st.targets[0], ast.Subscript) and ast.unparse(st.targets[0].value) == "self._initial"]
+    for g, st in stores:
+        v = st.value
+        ok = isinstance(v, ast.Call) and ast.unparse(v.func) in COPIERS
+        ctx.check(ok, "Stage.set_initial stores a private copy of the guess", detail="the caller's array is stored by reference: since the whole guess table is re-applied by later set_initial calls and re-transcriptions, mutating the array changes the starting point afterwards",
+                  expected="self._initial[var] = deepcopy(value)", found=ast.unparse(st), fi=g, node=st)
+    ctx.check(len(stores) >= 1, "Stage.set_initial records the guess", detail="record", expected="self._initial[var] = ...", found=str(len(stores)), fi=f)
+    # (b) solver options
+    s = P.own_method("DirectMethod", "solver")
+    w = [st for st in walk_no_nested(s.node) if isinstance(st, ast.Assign) and ast.unparse(st.targets[0]) == "self._solver_options"]
+    ok = len(w) == 1 and isinstance(w[0].value, ast.Call) and ast.unparse(w[0].value.func) in COPIERS
+    ctx.check(ok, "DirectMethod.solver stores a private copy of the options", detail="the caller's dict is stored by reference (and the default {} is shared between calls): a later edit of that dict changes the solver settings of the next transcription",
+              expected="self._solver_options = dict(solver_options)", found="; ".join(ast.unparse(x) for x in w), fi=s)
+    # (c) validate before mutating
+    for fname, table, test in (("set_next", "_state_next", "self._state_der"), ("set_der", "_state_der", "self._state_next")):
+        g = P.own_method("Stage", fname)
+        scg = ctx.scope(g)
+        asserts = [a for a in g.node.body if isinstance(a, ast.Assert) and test in ast.unparse(a.test)]
+        writes = [st for st in walk_no_nested(g.node) if isinstance(st, ast.Assign) and isinstance(st.targets[0], ast.Subscript) and ast.unparse(st.targets[0].value) == "self.%s" % table and not scg._inside_nested(st)]
+        calls = [c for c in g.node.body if isinstance(c, ast.Expr) and is_call_to(c.value, "for_all_primitives")]
+        first_mut = min([scg.order[x] for x in writes + calls] or [10 ** 9])
+        ok = len(asserts) == 1 and scg.order[asserts[0]] < first_mut
+        ctx.check(ok, "Stage.%s checks the continuous/discrete exclusion before recording anything" % fname, detail="a rejected declaration is recorded anyway: the next solve silently transcribes the other kind of system",
+                  expected="assert not %s before the first write to self.%s" % (test, table), found="assert at %s, first write at %s" % ([scg.order[a] for a in asserts], first_mut), fi=g)
+    g = P.own_method("Stage", "add_objective")
+    scg = ctx.scope(g)
+    w = [st for st in walk_no_nested(g.node) if isinstance(st, ast.Assign) and ast.unparse(st.targets[0]) == "self._objective"]
+    checks = [st for st in g.node.body if (isinstance(st, ast.If) and any(isinstance(x, ast.Raise) for x in st.body)) or isinstance(st, ast.Assert)]
+    ok = bool(w) and bool(checks) and all(scg.order[c] < scg.order[w[0]] for c in checks)
+    ctx.check(ok, "Stage.add_objective validates the term before adding it", detail="a rejected (non-scalar / signal-valued) term stays in the objective", expected="all checks before self._objective = ...",
+              found="checks at %s, write at %s" % ([scg.order[c] for c in checks], [scg.order[x] for x in w]), fi=g)
